@@ -1,3 +1,4 @@
+pub mod atomics;
 pub mod builder;
 
 /// Dispatch a generic function over the world named `$name`.
@@ -5,6 +6,7 @@ pub mod builder;
 macro_rules! with_world {
     ($name:expr, $f:ident ( $($arg:expr),* )) => {
         match $name {
+            "atomics" => $f::<$crate::worlds::atomics::AtomicsWorld>($($arg),*),
             "builder" => $f::<$crate::worlds::builder::BuilderWorld>($($arg),*),
             other => panic!("unknown world {other}"),
         }
